@@ -33,7 +33,8 @@ PROFILE = grammar.profile(
     lro_variants=True, p_lro=1.0, p_raw_op=0.25, p_list=0.15, p_get=0.4, p_create=0.1, p_update=0.1, p_delete=0.3,
     p_custom=0.1, p_sstream=0.0, p_cstream=0.0, p_bidi=0.0, p_service_config=0.6, p_second_file=0.6,
     resources=(1, 3), transports=["grpc", "grpc+rest", "grpc+rest"], p_google_api_ns=0.15,
-    common_file_names=["resources", "resources", "common", "operation", "<noun>", "<noun>"], p_signature=0.9)
+    common_file_names=["resources", "resources", "common", "operation", "<noun>", "<noun>"], p_signature=0.9,
+    p_nested_lro_types=0.2)
 
 BUDGET = {
     "quick": {"worlds": 120, "runs": 100, "wall_cap": 300, "world_wall": 90},
@@ -42,9 +43,9 @@ BUDGET = {
 REQUIRED_PROBES = ["not_done_polls", "error_history", "response_history", "unimported_type", "fully_qualified_name",
                    "relative_name", "empty_response", "raw_operation", "poll_fault_retried", "poll_fault_surfaced",
                    "initial_done", "async_future", "metadata_checked", "long_poll_over_60s", "concurrent_futures", "rest_future",
-                   "rest_polls", "rest_poll_rule_with_additional_bindings", "caller_cancelled_while_polling", "long_poll_outage_ridden_out"]
-ASSUMPTIONS = ["operation_info names that are relative AND nested (Outer.Inner) are excluded (DESIGN.md section 3)",
-               "api-core's default polling policy (1 s x1.5 up to 20 s, 900 s budget) is the reference for liveness"]
+                   "rest_polls", "rest_poll_rule_with_additional_bindings", "caller_cancelled_while_polling", "long_poll_outage_ridden_out",
+                   "relative_nested_name"]
+ASSUMPTIONS = ["api-core's default polling policy (1 s x1.5 up to 20 s, 900 s budget) is the reference for liveness"]
 
 
 def gen_spec(rng):
@@ -53,7 +54,9 @@ def gen_spec(rng):
 
 def resolve(name, pkg):
     """operation_info type name -> full name, relative to the method's package."""
-    return name if "." in name else f"{pkg}.{name}"
+    # (`Outer.Inner` is a NESTED type named relative to the package: package components are lower-case, message names
+    # start with a capital, in this grammar as in googleapis)
+    return name if "." in name and not name[0].isupper() else f"{pkg}.{name}"
 
 
 def _get_operation_rule(spec):
@@ -72,7 +75,7 @@ def lro_methods(spec):
 def _home_file(spec, full):
     for fs in spec["files"]:
         for mm in fs.get("messages", ()):
-            if fs["package"] + "." + mm["name"] == full:
+            if fs["package"] + "." + mm["name"] == full or full.startswith(fs["package"] + "." + mm["name"] + "."):
                 return fs["name"]
     return None
 
@@ -328,6 +331,8 @@ def judge_op(spec, codec, scenario, op, evs, probes):
     rfull = resolve(m["lro"]["response_type"], pkg)
     mfull = resolve(m["lro"]["metadata_type"], pkg)
     _bump(probes, "fully_qualified_name" if "." in m["lro"]["response_type"] else "relative_name")
+    if any(x[0].isupper() and "." in x for x in (m["lro"]["response_type"], m["lro"]["metadata_type"])):
+        _bump(probes, "relative_nested_name")
     for full in (rfull, mfull):
         home = _home_file(spec, full)
         if home is not None and home.endswith("/results.proto"):
